@@ -353,3 +353,114 @@ func SortedRegions(m map[int]bool) []int {
 	sort.Ints(out)
 	return out
 }
+
+// Level is the class table of one down-res level.
+type LevelTab struct {
+	Min, Size [3]int
+	Classes   [][]int // class c (1-based) -> the 8 children (regions at level 1, level-1 classes at level 2; 0 = unwritten)
+	cls       []int32 // class per voxel of the level's bounding box
+}
+
+// Downres computes the class tables of levels 1 and 2 by brute force over the geometry.
+func (g *Geom) Downres() (l1, l2 *LevelTab) {
+	build := func(min0, size0 [3]int, child func(x, y, z int) int) *LevelTab {
+		lv := &LevelTab{}
+		for d := 0; d < 3; d++ {
+			lv.Min[d] = fdiv(min0[d], 2)
+			lv.Size[d] = fdiv(min0[d]+size0[d]-1, 2) - lv.Min[d] + 1
+		}
+		lv.cls = make([]int32, lv.Size[0]*lv.Size[1]*lv.Size[2])
+		index := map[string]int{}
+		for z := 0; z < lv.Size[2]; z++ {
+			for y := 0; y < lv.Size[1]; y++ {
+				for x := 0; x < lv.Size[0]; x++ {
+					var kids []int
+					for dz := 0; dz < 2; dz++ {
+						for dy := 0; dy < 2; dy++ {
+							for dx := 0; dx < 2; dx++ {
+								kids = append(kids, child(2*(x+lv.Min[0])+dx, 2*(y+lv.Min[1])+dy, 2*(z+lv.Min[2])+dz))
+							}
+						}
+					}
+					sort.Ints(kids)
+					k := fmt.Sprint(kids)
+					c, ok := index[k]
+					if !ok {
+						lv.Classes = append(lv.Classes, kids)
+						c = len(lv.Classes)
+						index[k] = c
+					}
+					lv.cls[(z*lv.Size[1]+y)*lv.Size[0]+x] = int32(c)
+				}
+			}
+		}
+		return lv
+	}
+	l1 = build(g.Min, g.Size, func(x, y, z int) int { return g.RegionAt(x, y, z) })
+	l2 = build(l1.Min, l1.Size, func(x, y, z int) int {
+		x, y, z = x-l1.Min[0], y-l1.Min[1], z-l1.Min[2]
+		if x < 0 || y < 0 || z < 0 || x >= l1.Size[0] || y >= l1.Size[1] || z >= l1.Size[2] {
+			return 0
+		}
+		return int(l1.cls[(z*l1.Size[1]+y)*l1.Size[0]+x])
+	})
+	return
+}
+
+func tlaClasses(name string, cl [][]int) string {
+	var sb strings.Builder
+	sb.WriteString(name + " == <<")
+	for i, c := range cl {
+		if i > 0 {
+			sb.WriteString(", ")
+		}
+		sb.WriteString("<<")
+		for j, x := range c {
+			if j > 0 {
+				sb.WriteString(", ")
+			}
+			fmt.Fprint(&sb, x)
+		}
+		sb.WriteString(">>")
+	}
+	sb.WriteString(">>\n")
+	return sb.String()
+}
+
+// TLAConstantsDownres renders LabelGeom including the class tables.
+func (g *Geom) TLAConstantsDownres(initSV []uint64, l1, l2 *LevelTab) string {
+	s := g.TLAConstants(initSV)
+	s = strings.Replace(s, "====\n", "", 1)
+	if l1 == nil {
+		return s + "Classes1Def == <<>>\nClasses2Def == <<>>\n====\n"
+	}
+	return s + tlaClasses("Classes1Def", l1.Classes) + tlaClasses("Classes2Def", l2.Classes) + "====\n"
+}
+
+// CheckLevel compares a uint64 volume of the level's bounding box with the expected label
+// of every class; it returns a description of the first mismatch.
+func (lv *LevelTab) CheckLevel(vol []byte, want func(class int) uint64) string {
+	n := lv.Size[0] * lv.Size[1] * lv.Size[2]
+	if len(vol) != n*8 {
+		return fmt.Sprintf("volume has %d bytes, expected %d", len(vol), n*8)
+	}
+	bad := 0
+	first := ""
+	for i := 0; i < n; i++ {
+		l := binary.LittleEndian.Uint64(vol[i*8:])
+		c := int(lv.cls[i])
+		if w := want(c); l != w {
+			if bad == 0 {
+				x := i%lv.Size[0] + lv.Min[0]
+				y := (i/lv.Size[0])%lv.Size[1] + lv.Min[1]
+				z := i/(lv.Size[0]*lv.Size[1]) + lv.Min[2]
+				first = fmt.Sprintf("voxel (%d,%d,%d) of class %d (children %v) has label %d, documented vote gives %d", x, y, z, c, lv.Classes[c-1], l, w)
+			}
+			bad++
+		}
+	}
+	if bad > 0 {
+		return fmt.Sprintf("%d voxels differ; first: %s", bad, first)
+	}
+	return ""
+}
